@@ -4,6 +4,7 @@ import (
 	"fmt"
 	"go/ast"
 	"go/types"
+	"sort"
 	"strings"
 
 	"cachelint/pw"
@@ -584,7 +585,12 @@ func (c *Ctx) c01WhoMutates() {
 			}
 			n++
 			if name != "Failover.Get" && name != "FailoverOf.Get" {
-				r.Bad("R01.5", name, what+"-outside-Get", c.Pos(x.Pos()), fmt.Sprintf("%s of %s.%s outside Get", what, owner, fname), nil)
+				// allowed in unexported helpers of the sibling that are reachable from no exported method but Get
+				// (they are inlined into Get's paths and judged there)
+				if roots := c.exportedRootsOf(fn); !fn.Exported() && len(roots) == 1 && strings.HasSuffix(roots[0], ".Get") {
+					return true
+				}
+				r.Bad("R01.5", name, what+"-outside-Get", c.Pos(x.Pos()), fmt.Sprintf("%s of %s.%s outside Get (and outside helpers reachable only from Get)", what, owner, fname), nil)
 			}
 			return true
 		})
@@ -595,4 +601,55 @@ func (c *Ctx) c01WhoMutates() {
 	} else {
 		r.OK("R01.5", "package:who-mutates-keyLocks", fmt.Sprintf("%d insert/delete/close sites, all inside Get", n))
 	}
+}
+
+// exportedRootsOf lists the exported functions (and functions used as values / goroutine bodies) of the package from
+// which fn is reachable through static calls.
+func (c *Ctx) exportedRootsOf(target *types.Func) []string {
+	info := c.Pkg.TypesInfo
+	callers := map[*types.Func][]*types.Func{}
+	c.eachFuncDecl(func(fd *ast.FuncDecl, fn *types.Func) {
+		ast.Inspect(fd.Body, func(n ast.Node) bool {
+			var id *ast.Ident
+			switch x := n.(type) {
+			case *ast.SelectorExpr:
+				id = x.Sel
+			case *ast.Ident:
+				id = x
+			}
+			if id == nil {
+				return true
+			}
+			if callee, ok := info.Uses[id].(*types.Func); ok && callee.Pkg() == c.Pkg.Types {
+				callers[callee.Origin()] = append(callers[callee.Origin()], fn)
+			}
+			return true
+		})
+	})
+	seen := map[*types.Func]bool{}
+	roots := map[string]bool{}
+	var walk func(f *types.Func)
+	walk = func(f *types.Func) {
+		if seen[f] {
+			return
+		}
+		seen[f] = true
+		if f.Exported() {
+			roots[strings.TrimPrefix(pw.FuncName(f), "cache.")] = true
+			return
+		}
+		if len(callers[f]) == 0 {
+			roots[strings.TrimPrefix(pw.FuncName(f), "cache.")+"(unreferenced)"] = true
+		}
+		for _, cf := range callers[f] {
+			walk(cf)
+		}
+	}
+	walk(target.Origin())
+	var out []string
+	for r := range roots {
+		out = append(out, r)
+	}
+	sort.Strings(out)
+	return out
 }
